@@ -73,6 +73,14 @@ type activeRequest struct {
 
 type reqMap map[Tag]*activeRequest
 
+// completion pairs the reply produced by a handler with the request it
+// answers, so that the serve loop can tell a reply to a flushed request from
+// the reply to a later request that reuses the same tag.
+type completion struct {
+	request *Fcall
+	resp    *Fcall
+}
+
 func (tags reqMap) remove(t Tag) bool {
 	// check if we have actually know about the requested flush
 	active, ok := tags[t]
@@ -88,9 +96,9 @@ func (tags reqMap) remove(t Tag) bool {
 func (c *conn) serve() error {
 	tags := reqMap{} // active requests
 
-	requests := make(chan *Fcall)  // sync, read-limited
-	responses := make(chan *Fcall) // sync, goroutine consumed
-	completed := make(chan *Fcall) // sync, send in goroutine per request
+	requests := make(chan *Fcall)      // sync, read-limited
+	responses := make(chan *Fcall)     // sync, goroutine consumed
+	completed := make(chan completion) // sync, send in goroutine per request
 	// completed is an internal channel used
 	// in-between completion of the server callback and
 	// responses (which are to be sent to the client)
@@ -162,7 +170,7 @@ func (c *conn) serve() error {
 					}
 
 					select {
-					case completed <- resp:
+					case completed <- completion{request: req, resp: resp}:
 					case <-ctx.Done():
 						return
 					case <-c.closed:
@@ -170,11 +178,13 @@ func (c *conn) serve() error {
 					}
 				}(ctx, req)
 			}
-		case resp := <-completed:
+		case done := <-completed:
 			// only responses that flip the tag state traverse this section.
+			resp := done.resp
 			active, ok := tags[resp.Tag]
-			if !ok {
-				// The tag is no longer active. Likely a flushed message.
+			if !ok || active.request != done.request {
+				// The tag is no longer active, or it was flushed and is
+				// now used by a later request: drop the stale reply.
 				continue
 			}
 
